@@ -59,11 +59,17 @@ template<typename T> static void vo_use(var_opt_sketch<T>& s) {
   var_opt_sketch<T> res = u.get_result();
   (void)vo_common(res); (void)res.serialize(); (void)u.serialize();
 }
+// cheap read-outs for accepted objects that own a block > 64 MiB (see accept()): nothing here scales with the object's size
+template<typename T> static void vo_cheap(var_opt_sketch<T>& s) {
+  (void)s.get_k(); (void)s.get_n(); (void)s.get_num_samples(); (void)s.is_empty();
+  Rng r(5); s.update(Gen<T>::make(r), 2.0);
+  (void)s.get_n(); (void)s.get_num_samples();
+}
 template<typename T> static std::string vo_bytes(const void* p, size_t n, bool use) {
-  return accept([&] { return var_opt_sketch<T>::deserialize(p, n); }, vo_readout<T>, vo_use<T>, use);
+  return accept([&] { return var_opt_sketch<T>::deserialize(p, n); }, vo_readout<T>, vo_use<T>, use, vo_cheap<T>);
 }
 template<typename T> static std::string vo_stream(std::istream& is, bool use) {
-  return accept([&] { return var_opt_sketch<T>::deserialize(is); }, vo_readout<T>, vo_use<T>, use);
+  return accept([&] { return var_opt_sketch<T>::deserialize(is); }, vo_readout<T>, vo_use<T>, use, vo_cheap<T>);
 }
 
 enum VK { V_EMPTY, V_EXACT, V_SAMPLING, V_SAMPLING_LIGHT };
@@ -179,11 +185,16 @@ template<typename T> static void eb_use(ebpps_sketch<T>& s) {
   s.merge(fresh);
   (void)eb_common(s); (void)s.serialize();
 }
+template<typename T> static void eb_cheap(ebpps_sketch<T>& s) {
+  (void)s.get_k(); (void)s.get_n(); (void)s.get_c(); (void)s.get_cumulative_weight(); (void)s.is_empty();
+  Rng r(5); s.update(Gen<T>::make(r), 2.0);
+  (void)s.get_n(); (void)s.get_c();
+}
 template<typename T> static std::string eb_bytes(const void* p, size_t n, bool use) {
-  return accept([&] { return ebpps_sketch<T>::deserialize(p, n); }, eb_readout<T>, eb_use<T>, use);
+  return accept([&] { return ebpps_sketch<T>::deserialize(p, n); }, eb_readout<T>, eb_use<T>, use, eb_cheap<T>);
 }
 template<typename T> static std::string eb_stream(std::istream& is, bool use) {
-  return accept([&] { return ebpps_sketch<T>::deserialize(is); }, eb_readout<T>, eb_use<T>, use);
+  return accept([&] { return ebpps_sketch<T>::deserialize(is); }, eb_readout<T>, eb_use<T>, use, eb_cheap<T>);
 }
 enum EK { E_EMPTY, E_EXACT, E_PARTIAL, E_WHOLE };
 template<typename T> static Bytes eb_image(Rng& r, bool T_, int kind) {
